@@ -330,7 +330,10 @@ class OperandNode(ASTNode):
             value = self.value
             if value.startswith('"') and value.endswith('"'):
                 value = value[1:-1]
-            value = value.replace('""', r'\"')
+            # the python literal for the characters of the excel text
+            value = value.replace('""', '"').replace('\\', '\\\\')
+            value = value.replace('"', r'\"')
+            value = value.replace('\n', r'\n').replace('\r', r'\r')
             return f'"{value}"'
 
         else:
